@@ -460,6 +460,16 @@ void World::on_alloc_fail(uint64_t index) {
 	if (mode == "exact") { for (auto &cl : clients) cl.expq.clear(); flush_pending(); mode = "ledger"; }
 }
 
+void World::password_changed(const std::string &user, const std::string &oldpw, const std::string &newpw, bool tentative) {
+	JV c = JV::obj(); c.set("user", JV::str(user)); c.set("old", JV::str(oldpw)); c.set("new", JV::str(newpw)); c.set("applied", JV::boolean(!tentative)); c.set("resolved", JV::boolean(!tentative));
+	pw_changes.push_back(c); g_kernel.cur_change = (int)pw_changes.size();
+	secrets.push_back(newpw);
+}
+void World::password_resolved(int index, bool applied) {
+	if (index < 0 || index >= (int)pw_changes.size()) return;
+	pw_changes[index].put("applied", JV::boolean(applied)); pw_changes[index].put("resolved", JV::boolean(true));
+}
+
 void World::on_file_op(const char *op, long result) { trace.tag("fs"); trace.tag(op); trace.u64((uint64_t)result); probe(std::string("fs:") + op); }
 
 void World::scan_secret(const std::string &where, const char *p, size_t n) {
